@@ -136,6 +136,13 @@ def iter_source(n, env, depth=0):
         srcs = [iter_source(x, env, depth + 1) for x in defs]
         if srcs and all(s is not None for s in srcs) and all(same_object(s, srcs[0], env) for s in srcs[1:]):
             return srcs[0]
+        # a pointer local defined once by an expression that is not an iterator expression (`const T* p = g.get_ptr();`):
+        # the array is whatever that expression yields
+        ty = (env.types.get(n.get("d")) or "").rstrip()
+        if len(defs) == 1 and (ty.endswith("*") or ty.endswith("* const")):
+            d0 = strip(defs[0])
+            if isinstance(d0, dict) and d0.get("k") in ("MCall", "Call", "Member", "Ref"):
+                return d0
     return None
 
 
